@@ -400,11 +400,13 @@ def compare(ctx: Ctx, cases, models, reals, pys, stats: dict) -> None:
             stats["model_diff"] += 1
             ctx.count("disagreements_checked")
             ctx.sample({"bind_model_diff": diff, "source": src}, limit=12)
-            if holds and stats["model_diff"] <= 3:
-                ctx.violation(f"bind correspondence broken: {diff} on {src}; mypy and CPython still agree on this call "
-                              "(the model no longer describes the code)",
-                              dict(detail, broken="correspondence Driver/C12Bind vs map_actuals_to_formals/check_argument_count",
-                                   mypy=real["errs"], f2a=real["f2a"], model=mline), found_input=False)
+            if holds and len(stats["pending"]) < 3:
+                # decided at the end of the run: reported only if the search finds no call on which mypy and
+                # CPython actually disagree
+                stats["pending"].append((f"bind correspondence broken: {diff} on {src}; mypy and CPython still agree on "
+                                         "this call and on every other explored call (the model no longer describes the code)",
+                                         dict(detail, broken="correspondence Driver/C12Bind vs map_actuals_to_formals/check_argument_count",
+                                              mypy=real["errs"], f2a=real["f2a"], model=mline)))
 
 
 def run_pairs(ctx: Ctx, mypy: MypyRunner, py: PyRunner, pairs, stats, batch: int = 4000) -> None:
@@ -439,20 +441,37 @@ def run(ctx: Ctx) -> None:
                 "CPython binding model (PyBind) is compared with the running interpreter (real def + call) on every case",
                 "harness observes formal_to_actual by wrapping ExpressionChecker.check_argument_count in-process")
     before = len(ctx.violations)
-    stats = {"crash": 0, "other": 0, "property_fail": 0, "model_diff": 0}
+    stats = {"crash": 0, "other": 0, "property_fail": 0, "model_diff": 0, "pending": []}
     mypy, py = MypyRunner(ctx), PyRunner()
     atoms_small = [ATOM_POS, ATOM_STARS[1], ATOM_STARS[2], ATOM_KWS[0], ATOM_KWS[4], ATOM_TDS[1], ATOM_TDS[5]]
     atoms_all = [ATOM_POS] + ATOM_STARS + ATOM_KWS + ATOM_TDS
-    # (1) exhaustive block: every signature ≤ N params × every call ≤ M actuals over a small atom set
-    sigs_small = all_sigs(ctx.pick(2, 3))
-    calls_small = all_calls(ctx.pick(2, 3), atoms_small)
-    pairs = [(s, c) for s in sigs_small for c in calls_small if not shares_key(c)]
-    ctx.coverage["bind_exhaustive_block"] = {"signatures": len(sigs_small), "calls": len(calls_small), "pairs": len(pairs)}
-    if ctx.quick() and len(pairs) > 6000:
-        pairs = rng.sample(pairs, 6000)
+    # (1) exhaustive blocks: every signature ≤ N params × every call ≤ M actuals over an atom alphabet
+    blocks = ctx.pick([(2, 2, atoms_small)],
+                      [(4, 3, atoms_small), (3, 4, atoms_small), (4, 2, atoms_all)])
+    pairs, seen_pairs = [], set()
+    ctx.coverage["bind_exhaustive_blocks"] = []
+    for nsig, ncall, alphabet in blocks:
+        sigs_b, calls_b = all_sigs(nsig), all_calls(ncall, alphabet)
+        n0 = len(pairs)
+        for s_ in sigs_b:
+            for c in calls_b:
+                if shares_key(c):
+                    continue
+                k = (s_.key(), call_tokens(c), call_text(c))
+                if k not in seen_pairs:
+                    seen_pairs.add(k)
+                    pairs.append((s_, c))
+        ctx.coverage["bind_exhaustive_blocks"].append(
+            {"max_params": nsig, "max_actuals": ncall, "alphabet": [a[1] for a in alphabet],
+             "signatures": len(sigs_b), "calls": len(calls_b), "new_pairs": len(pairs) - n0})
+    if ctx.quick():
+        # plus a sample of the next block
+        sigs3, calls3 = all_sigs(3), [c for c in all_calls(3, atoms_small) if not shares_key(c)]
+        for _ in range(4500):
+            pairs.append((rng.choice(sigs3), rng.choice(calls3)))
     # (2) sampled block: signatures ≤ 4 params × calls ≤ 4 actuals over all atoms
     sigs_big = all_sigs(4)
-    nsample = ctx.pick(9000, 150000)
+    nsample = ctx.pick(12000, 100000)
     calls_cache: dict[int, list] = {}
     seen = set()
     tries = 0
@@ -484,6 +503,10 @@ def run(ctx: Ctx) -> None:
     f8_calls = [c for c in all_calls(3, [ATOM_POS, ATOM_KWS[4], ATOM_TDS[1], ATOM_TDS[5], ATOM_TDS[6], ATOM_TDS[3]]) if shares_key(c)]
     f8_pairs = [(rng.choice(sigs_big), rng.choice(f8_calls)) for _ in range(ctx.pick(40, 600))]
     run_pairs(ctx, mypy, py, f8_pairs, stats, batch=200)
+    pending = stats.pop("pending")
+    if len(ctx.violations) == before:
+        for what, det in pending:
+            ctx.violation(what, det, found_input=False)
     ctx.coverage["bind_stats"] = dict(stats, mypy_builds=mypy.nbuilds, pairs=len(pairs) + len(f8_pairs))
     if not proved and len(ctx.violations) == before:
         ctx.violation("Lean development for C12 call binding no longer builds and no call was found on which mypy and "
@@ -491,10 +514,33 @@ def run(ctx: Ctx) -> None:
                       found_input=False)
 
 
+def sig_from_line(line: str) -> Sig:
+    po, pk, nd, va, ko, kw = line.split(";")
+
+    def names(x):
+        return [NAME_OF[int(t)] for t in x.split(",") if t]
+    return Sig(names(po), names(pk), int(nd), None if va == "-" else NAME_OF[int(va)],
+               [(NAME_OF[int(t.split(":")[0])], t.split(":")[1] == "1") for t in ko.split(",") if t],
+               None if kw == "-" else NAME_OF[int(kw)])
+
+
+def call_from_tokens(toks: str) -> tuple:
+    table = {a[0]: a for a in [ATOM_POS] + ATOM_STARS + ATOM_KWS + ATOM_TDS + ATOM_UNK}
+    return tuple(table[t] for t in toks.split())
+
+
 def replay(ctx: Ctx, det: dict) -> bool:
+    """re-run the recorded (signature, call) on the current tree: model, real mypy, CPython"""
     if det.get("sub") != "bind":
         return False
-    print(json.dumps(det, indent=1, default=str))
+    print(json.dumps({k: v for k, v in det.items() if k != "model"}, indent=1, default=str))
     if det.get("sig") and det.get("call") is not None:
-        print("model:", ctx.lean_driver(DRIVER, [f"{det['sig']} | {det['call']}"]))
+        sig, call = sig_from_line(det["sig"]), call_from_tokens(det["call"])
+        print("source :", f"def f({sig.text()}) -> None: ...   f({call_text(call)})")
+        print("model  :", ctx.lean_driver(DRIVER, [f"{det['sig']} | {det['call']}"])[0])
+        real = MypyRunner(ctx).run([(sig, call)])[0]
+        print("mypy   :", "CRASH " + real["crash"] if real["crash"] else
+              {"formal_to_actual": real["f2a"], "diagnostics": real["errs"]})
+        if all(a[2] not in ("ustar", "ustar2") for a in call):
+            print("cpython:", PyRunner().call(sig, call))
     return True
